@@ -333,6 +333,8 @@ class HubRun:
             return "private"
         if call in ("flock", "funlock"):
             return "visible"
+        if call in ("open", "stat") and self.lock_holder == s.sid and ".conflict-" in rel:
+            return "private"        # the lock holder looking at the name its conflict-copy is about to take (one step with the rename, as in Hub.tla)
         if call == "open" and self.lock_holder == s.sid and not rel.endswith(STG):
             return "private"        # current_hash under the lock: the stat before it is the visible read of the live file
         if call in ("open", "write", "rename", "unlink", "stat", "ftruncate", "copy_file_range", "sendfile"):
